@@ -22,6 +22,7 @@ CONSTANTS
   AbortOnError = %(abort)s
   ResetOnError = %(reset)s
   ReadTimeoutArmsWrite = %(rtw)s
+  StaleTargetOptions = %(stale)s
   PeekN = 1
   MaxC = %(maxc)d
   MaxU = %(maxu)d
@@ -32,7 +33,7 @@ INVARIANTS %(inv)s
 PROPS = "PrefixInv FirstFinisherDelivered HalfCloseGetsReply Transparent"
 ALL_KINDS = '{"tcp", "sni", "ws"}'
 ACTIONS = ["CWrite", "CFin", "CRead", "CCloseAfterEOF", "CAbort", "UWrite", "UFin", "URead", "UCloseAfterEOF", "Peek",
-           "ReadHello", "Dial", "ProxyHdr", "ReplayHello", "Ws101", "CURead", "CUWrite", "CUEof", "CUTimeout", "UCRead",
+           "ReadHello", "Dial", "DialRefused", "ProxyHdr", "ReplayHello", "Ws101", "CURead", "CUWrite", "CUEof", "CUTimeout", "UCRead",
            "UCWrite", "UCEof", "Finish"]
 SPLITS = [0, 1, 5, 8, 9, 10, 11, 43, 100, -1, -2]
 
@@ -46,9 +47,9 @@ INVARIANTS InOrder AllDelivered %s
 """
 
 
-def cfg(eof=False, raw=False, drop=False, abort=False, reset=False, rtw=False, maxc=2, maxu=2, kinds=ALL_KINDS, gen=False, deadlock=True):
+def cfg(eof=False, raw=False, drop=False, abort=False, reset=False, rtw=False, stale=False, maxc=2, maxu=2, kinds=ALL_KINDS, gen=False, deadlock=True):
     tf = lambda b: "TRUE" if b else "FALSE"
-    return CFG % dict(eof=tf(eof), raw=tf(raw), drop=tf(drop), abort=tf(abort), reset=tf(reset), rtw=tf(rtw), maxc=maxc, maxu=maxu,
+    return CFG % dict(eof=tf(eof), raw=tf(raw), drop=tf(drop), abort=tf(abort), reset=tf(reset), rtw=tf(rtw), stale=tf(stale), maxc=maxc, maxu=maxu,
                       kinds=kinds, inv=PROPS + (" GenOut" if gen else ""),
                       dl="" if deadlock else "CHECK_DEADLOCK FALSE")
 
@@ -90,6 +91,8 @@ def build_cases(ctx, sink):
     with open(sink) as fh:
         for line in fh:
             o = json.loads(line)
+            if o["sc"]["dead"] == 1 and not o["uconn"]:
+                continue        # refused dial, connection given up: nothing tunnelled; expected streams are those of the retry
             k = json.dumps(o["sc"], sort_keys=True)
             by.setdefault(k, {})[json.dumps([o["crecv"], o["urecv"]])] = o
     ambiguous = [k for k, v in by.items() if len(v) != 1]
@@ -104,6 +107,16 @@ def build_cases(ctx, sink):
         o = list(by[k].values())[0]
         sc = o["sc"]
         err = sc["uslow"] == 1
+        if sc["dead"] == 1:
+            # two instances with different options, the first dial refused
+            for path in {"tcp": ["tcp"], "sni": ["sni"]}[sc["kind"]]:
+                n += 1
+                c = dict(o)
+                c.update(path=path, spell=rng.choice(["tiny", "line", "mix"]), hello=rng.choice(["tls13", "tls12"]), split=rng.choice(SPLITS), id=n)
+                if path == "tls":
+                    c.update(tlsver=rng.choice([12, 13]), cork=True)
+                tcp.append(c)
+            continue
         if sc["rt"] == 1:
             # listener with a read timeout; every such case waits for the timeout to pass: a seeded sample is played
             for path in {"tcp": ["tcp", "tls"] + (["dyn"] if sc["proxy"] == 0 else []), "sni": ["sni"]}[sc["kind"]]:
@@ -140,23 +153,46 @@ def build_cases(ctx, sink):
 
 def confirm(ctx, r, sub, runner):
     """Every alarm is reproduced once more before it is reported (DESIGN 4.2): the failing cases are played again;
-    a case that does not fail again with the same clause is dropped from the failures and makes the run inconclusive."""
+    a case that does not fail again with the same clause is dropped from the failures and makes the run inconclusive.
+    A scenario that did not finish is played again twice: the specification says every scenario of the universe
+    terminates, so a scenario that hangs three times out of three does not terminate in the code under test
+    (clause no-termination); one that finishes when played again stays a hang (inconclusive)."""
+    if runner is None:
+        return
     fails = r.of_kind("fail")
-    if not fails or runner is None:
-        return
-    again = os.path.join(ctx.tmp, "c09.%s.again" % sub)
-    for i, f in enumerate(fails):
-        f["case"]["id"] = i
-    vf.write_ndjson(again, [f["case"] for f in fails])
-    r2 = runner(ctx, again, "C09 %s reproduction" % sub, lanes=2, timeout=600)
-    if r2 is None:
-        return
-    seen = {(f["case"].get("id"), f.get("features", {}).get("clause")) for f in r2.of_kind("fail")}
-    lost = [f for f in fails if (f["case"]["id"], f.get("features", {}).get("clause")) not in seen]
-    if lost:
-        ctx.inconclusive("%s: %d of %d alarm(s) did not reproduce when the case was played again (not reported); first: %s / %s"
-                         % (sub, len(lost), len(fails), lost[0].get("msg", "")[:300], json.dumps(lost[0]["case"].get("sc"))))
-        r.records = [x for x in r.records if x not in lost]
+    if fails:
+        again = os.path.join(ctx.tmp, "c09.%s.again" % sub)
+        for i, f in enumerate(fails):
+            f["case"]["id"] = i
+        vf.write_ndjson(again, [f["case"] for f in fails])
+        r2 = runner(ctx, again, "C09 %s reproduction" % sub, lanes=2, timeout=600)
+        if r2 is None:
+            return
+        seen = {(f["case"].get("id"), f.get("features", {}).get("clause")) for f in r2.of_kind("fail")}
+        lost = [f for f in fails if (f["case"]["id"], f.get("features", {}).get("clause")) not in seen]
+        if lost:
+            ctx.inconclusive("%s: %d of %d alarm(s) did not reproduce when the case was played again (not reported); first: %s / %s"
+                             % (sub, len(lost), len(fails), lost[0].get("msg", "")[:300], json.dumps(lost[0]["case"].get("sc"))))
+            r.records = [x for x in r.records if x not in lost]
+    hangs = [h for h in r.of_kind("hang") if h.get("case")][:6]
+    if hangs:
+        still = hangs
+        for attempt in (1, 2):
+            again = os.path.join(ctx.tmp, "c09.%s.hang%d" % (sub, attempt))
+            for i, h in enumerate(still):
+                h["case"]["id"] = i
+            vf.write_ndjson(again, [h["case"] for h in still])
+            rh = runner(ctx, again, "C09 %s hang reproduction %d" % (sub, attempt), lanes=len(still), timeout=600)
+            if rh is None:
+                return
+            ids = {h["case"].get("id") for h in rh.of_kind("hang")}
+            still = [h for h in still if h["case"]["id"] in ids]
+            if not still:
+                break
+        for h in still:
+            r.records.remove(h)
+            r.records.append({"kind": "fail", "case": h["case"], "features": {"path": h["case"].get("path"), "clause": "no-termination"},
+                              "msg": "the scenario did not finish within the deadline three times out of three although the specification terminates on it: " + h.get("msg", "")})
 
 
 def take(ctx, r, sub):
@@ -201,7 +237,8 @@ def run(ctx):
             ("DropDataWithEOF", dict(drop=True, kinds='{"tcp"}', deadlock=False, maxc=1, maxu=1)),
             ("AbortOnError", dict(abort=True, kinds='{"tcp"}', deadlock=False, maxc=1, maxu=2)),
             ("ResetOnError", dict(reset=True, kinds='{"tcp"}', deadlock=False, maxc=1, maxu=2)),
-            ("ReadTimeoutArmsWrite", dict(rtw=True, kinds='{"tcp"}', deadlock=False, maxc=1, maxu=1)))
+            ("ReadTimeoutArmsWrite", dict(rtw=True, kinds='{"tcp"}', deadlock=False, maxc=1, maxu=1)),
+            ("StaleTargetOptions", dict(stale=True, kinds='{"tcp"}', deadlock=False, maxc=1, maxu=1)))
     ex = ThreadPoolExecutor(max_workers=2)
     futs = [(name, tlc_bg(ctx, ex, "Tunnel_MC", cfg_text=cfg(**kw), workers=2, timeout=300)) for name, kw in devs]
 
